@@ -392,7 +392,11 @@ class World:
                 for name in sorted(set(before) | set(v.fields)):
                     b, a = before.get(name), v.fields.get(name)
                     if (id(v), name) not in allowed and b is not a:
-                        if b is None or a is None:
+                        if b is None:
+                            # an attribute the contract's object model does not have: the contract cannot say whether it matters
+                            raise Unsupported("the function stores %s.%s, an attribute the contract's object model does not have"
+                                              % (path, name))
+                        if a is None:
                             ex.oblige("frame %s.%s unchanged" % (path, name), False, kind="frame")
                         else:
                             try:
